@@ -39,11 +39,7 @@ ASSUMPTIONS = [
 ]
 BUDGET = {"quick": 150, "thorough": 1500}
 
-FLAGSETS = {
-  "default": {},
-  "nomulti": {"multiccd": "disable"},
-  "nonative": {"multiccd": "disable", "nativeccd": "disable"},
-}
+FLAGSETS = _col.FLAGSETS
 
 # float32 / convex-solver allowances: (dist, pos, normal)
 ALLOW_PRIM = (1e-5, 5e-5, 5e-4)
@@ -51,24 +47,6 @@ ALLOW_CCD = (1e-4, 5e-3, 2e-2)
 C_NOISE_SCALE = 0.2  # cmp.judge multiplies noise by 50; the 1e-6 pose probe is ~10 float32 ulps, so use 10x
 PARAM_ALLOW = 2e-6
 EXIST_TOL = {"prim": 2e-5, "ccd": 2e-4}
-
-TREE_PROFILE = gen.profile(
-  nbody=(3, 7),
-  collide=True,
-  contact_rich=True,
-  p_plane=0.5,
-  p_mesh=0.15,
-  p_pair=0.4,
-  p_exclude=0.3,
-  p_priority=0.3,
-  p_weld=0.3,
-  p_mocap=0.1,
-  p_site=0.0,
-  condims=(1, 3, 4, 6),
-  cones=("pyramidal", "elliptic"),
-  flags_disable=("filterparent",),
-)
-
 
 def cases(tier, seed):
   out = []
@@ -97,73 +75,7 @@ def cases(tier, seed):
 # ------------------------------------------------------------------------------------ scene construction
 
 
-def make_case_model(case, rng):
-  """Returns (xml, mjm, qpos_list, feats) or None if MuJoCo rejects it."""
-  kind = case["kind"]
-  flags = dict(FLAGSETS[case["flags"]])
-  nworld = 3
-  if kind == "pair":
-    t1, t2 = case["pair"]
-    K = 5
-    opts = {"flags": flags, "cone": ("pyramidal", "elliptic")[int(rng.integers(2))], "p_margin": 0.35, "p_params": 0.3}
-    opts["polytope_margin"] = case["flags"] == "nonative"
-    if t1 in ("plane", "hfield"):
-      bt = [t2] * K
-      pairs = [(t1, i) for i in range(K)]
-      opts[t1] = True
-      opts["plane_tilt"] = rng.random() < 0.5
-    else:
-      bt = [t1, t2] * K
-      pairs = [(2 * i, 2 * i + 1) for i in range(K)]
-      opts["pairs"] = [(2 * i, 2 * i + 1) for i in range(K) if rng.random() < 0.25]
-    xml, info = _col.build_scene(rng, bt, opts)
-    mjm = gen.compile_xml(xml)
-    if mjm is None:
-      return None
-    qs = [_col.place_pairs(mjm, info, pairs, rng)[0] for _ in range(nworld)]
-    return xml, mjm, qs, [f"pairscene:{t1}-{t2}", "flags:" + case["flags"], "cone:" + opts["cone"]]
-  if kind == "crowd":
-    n = int(rng.integers(8, 15))
-    types = ["sphere", "capsule", "ellipsoid", "cylinder", "box", "mesh"]
-    bt = [types[int(rng.integers(6))] for _ in range(n)]
-    opts = {"flags": flags, "cone": ("pyramidal", "elliptic")[int(rng.integers(2))], "p_margin": 0.3, "p_params": 0.3}
-    opts["polytope_margin"] = case["flags"] == "nonative"
-    opts["plane"] = rng.random() < 0.6
-    opts["plane_tilt"] = rng.random() < 0.5
-    opts["hfield"] = rng.random() < 0.35
-    prs, exs = [], []
-    for _ in range(3):
-      i, j = rng.choice(n, size=2, replace=False)
-      if rng.random() < 0.5 and (min(i, j), max(i, j)) not in prs:
-        prs.append((int(min(i, j)), int(max(i, j))))
-      i, j = rng.choice(n, size=2, replace=False)
-      if rng.random() < 0.4:
-        exs.append((int(i), int(j)))
-    opts["pairs"], opts["excludes"] = prs, exs
-    xml, info = _col.build_scene(rng, bt, opts)
-    mjm = gen.compile_xml(xml)
-    if mjm is None:
-      return None
-    z0 = -2.72 if (opts["hfield"] and not opts["plane"]) else 0.05
-    qs = []
-    for w in range(nworld):
-      q = _col.place_crowd(mjm, info, rng, extent=rng.choice([0.45, 0.6, 0.8]), z0=z0)
-      qs.append(q)
-    if opts["hfield"] and opts["plane"]:
-      pass
-    return xml, mjm, qs, ["crowd", "flags:" + case["flags"], "cone:" + opts["cone"]] + (["crowd:hfield"] if opts["hfield"] else []) + (["crowd:plane"] if opts["plane"] else [])
-  if kind == "tree":
-    P = dict(TREE_PROFILE)
-    P["p_margin"] = 0.3 if case["flags"] == "nomulti" else 0.0
-    xml, mjm, feat, s = gen.make_model(case["seed"], P)
-    if mjm is None:
-      return None
-    for k, v in flags.items():
-      bit = {"multiccd": mujoco.mjtDisableBit.mjDSBL_MULTICCD, "nativeccd": mujoco.mjtDisableBit.mjDSBL_NATIVECCD}[k]
-      mjm.opt.disableflags |= int(bit)
-    qs = [np.asarray(gen.sample_state(mjm, rng, quat_scale=False, applied=False)["qpos"], dtype=np.float64) for _ in range(nworld)]
-    return xml + "|" + case["flags"], mjm, qs, ["tree", "flags:" + case["flags"]] + [f for f in feat if f.startswith(("contact:", "disable:", "cone:"))]
-  raise ValueError(kind)
+make_case_model = _col.make_case_model
 
 
 # ------------------------------------------------------------------------------------ oracle
